@@ -267,3 +267,11 @@ Proof.
     + intros row Hr. apply row_sortedb_spec. apply H2; exact Hr.
     + intros x Hx. apply Nat.ltb_lt. apply H3; exact Hx.
 Qed.
+
+(** ** The whole chart *)
+Definition chart_shows (I : instance) (S : schedule) (req : option Z) (c : chart) : Prop :=
+  chart_bars I S (c_bars c) /\
+  legend_ok S (c_legend c) /\
+  yaxis_ok (length S) (c_ylim c) (c_yticks c) /\
+  xlim_ok I S req (c_xlim c) /\
+  exists ticks, c_xticks c = Some ticks /\ xaxis_ok (c_xlim c) ticks.
